@@ -17,6 +17,14 @@ class Dispatcher:
             for bi, t in b.calls():
                 if callee_path(t) == PHF_GET:
                     cands.append((b, bi, t))
+        self.other_sites = []
+        if len(cands) > 1:
+            # the dispatcher looks a key up in the table it is *given*; a lookup in a named table elsewhere is a second
+            # consultation of the operator tables (reported by C02 K2 / C03 K6), not a second dispatcher
+            param = [c for c in cands if strip_refs(c[0].trace(c[2]["args"][0]))[0] == "arg"]
+            if len(param) == 1:
+                self.other_sites = [c for c in cands if c is not param[0]]
+                cands = param
         if len(cands) != 1:
             raise Inconclusive("expected exactly one phf::Map::get call site (the dispatcher), found %d" % len(cands))
         self.body, self.get_bi, self.get_term = cands[0]
